@@ -11,6 +11,7 @@ Line-protocol driver for C04 (all numbers decimal, hashes/bytes hex; float64 val
   CS hash stake threshold total [P:k:v ...]     -> same, p = pOf threshold total (first field after `ok j` block: p)
   M seedhex role index                          -> hex of MakeM
   P hash j                                      -> hex of computePriority (real Keccak-256)
+  MR | MC round | MQ round index step store     -> ok | ok | origin round index step          SortitionManager cache (stateful)
   SP verdict                                    -> accept|refuse|crash                        Server.verifyPriority given VrfVerifyPriority's verdict
   SS nodeRound nodeIndex msgRound msgIndex verdict -> accept|refuse|crash                     Server.verifySortition given VrfVerifySortition's verdict
   VS total threshold stake sub (ok:hash|err) [P:k:v ...]            -> verdict | need …
@@ -81,8 +82,7 @@ def givenVrf (r : Option (List UInt8)) : Vrf Unit Unit Unit Unit :=
 
 def keccak : List UInt8 → List UInt8 := Keccak.hash
 
-def step (_ : Unit) (line : String) : Unit × String :=
-  let out : String :=
+def stepPure (line : String) : String :=
     match fields line with
     | ["K"] => s!"k {f64One} {f64_099} {f64_20}"
     | ["S", n, bits] =>
@@ -168,6 +168,21 @@ def step (_ : Unit) (line : String) : Unit × String :=
         | none => showVerdict (verifyPriority (givenVrf r) (cdfOf t) keccak () [] 0 0 () prio sub ⟨thr, stake, tot⟩)
       | _, _, _, _, _, _, _ => "bad-op"
     | _ => "bad-op"
-  ((), out)
 
-def main : IO Unit := runLoop () step
+/-- the SortitionManager cache is the only state: MR (reset) | MC round | MQ round index step store(0/1) -> origin -/
+def step (m : Mgr) (line : String) : Mgr × String :=
+  match fields line with
+  | ["MR"] => (Mgr.init, "ok")
+  | ["MC", r] =>
+    match r.toNat? with
+    | some r => (m.clear r, "ok")
+    | none => (m, "bad-op")
+  | ["MQ", r, i, s, st] =>
+    match r.toNat?, i.toNat?, s.toNat? with
+    | some r, some i, some s =>
+      let (m', o) := m.query ⟨r, i, s⟩ (st == "1")
+      (m', s!"{o.round} {o.index} {o.step}")
+    | _, _, _ => (m, "bad-op")
+  | _ => (m, stepPure line)
+
+def main : IO Unit := runLoop Mgr.init step
